@@ -106,7 +106,9 @@ AmpTodo == Amps(g) \ seen
 PrevLoss(i) == LET p == Prev1(g, i) IN IF IsLine(g[p]) THEN SpanLoss(g, p) ELSE 0
 SetAmp(i) ==
     LET u == g[i].sub[1]
-        v == IF u.variety = "" THEN CHOOSE x \in cfg.lib : TRUE ELSE u.variety
+        \* a library model is eligible when its band contains the design band (edges included)
+        ok == {x \in cfg.lib : cfg.ampBand[1] <= cfg.siBand[1] /\ cfg.siBand[2] <= cfg.ampBand[2]}
+        v == IF u.variety = "" THEN CHOOSE x \in ok : TRUE ELSE u.variety
         s == [variety |-> v,
               gain |-> IF u.gain = NONE \/ cfg.powerMode THEN PrevLoss(i) ELSE u.gain,
               voa  |-> IF u.voa = NONE THEN 0 ELSE u.voa,
